@@ -118,7 +118,7 @@ CLAIMED = {
     text="Lean 4 theorems poll_sound / poll_monotone / poll_no_stuck / poll_progress (inductive invariant over all operation "
          "interleavings, any number of readers and handles) on an executable model of urcu-poll-impl.h; the model is tied to "
          "the current source by replaying generated operation sequences on the real file and on the model (every returned "
-         "handle, boolean and re-queue decision compared) plus an independent implementation oracle. Floor = target (DESIGN §4 C14).",
+         "handle, boolean and re-queue decision compared) plus an independent implementation oracle; and the same real file under the cooperative runtime with several poller threads, readers and an abstract helper, preempted at every mutex acquisition/release (operations ordered by the ticket taken when the mutex is acquired), which exposes accesses moved out of the critical section. Floor = target (DESIGN §4 C14).",
     note="Trusted: Lean kernel (axioms propext/Classical.choice/Quot.sound only); call_rcu and the grace period are the abstract "
          "C03/C01 specifications; each API body is atomic under poll_worker_gp_state.lock (lock discipline is observed by the "
          "harness, not proved); counters do not wrap within 2^63 grace periods; liveness needs C03's helper liveness + fairness.",
